@@ -286,3 +286,64 @@ class StackInit(_Init):
         ts, name = ctx.st
         inputs, output, fresh = ctx.rec[0][1][:3]
         return [("name_not_an_input_of_parts", not any(name in t for t in ts)), ("inputs_name_then_parts", list(inputs) == [name] + union(*ts) and inputs[name] == ("Bint", len(ts))), ("output_and_fresh", output == "common-output" and fresh == frozenset({name}))]
+
+
+class DomI:
+    """a domain with a dtype and a shape (for Independent's typing rule)"""
+
+    def __init__(self, dtype, shape):
+        self.dtype, self.shape = dtype, tuple(shape)
+
+    def __repr__(self):
+        return "Dom(%r,%r)" % (self.dtype, self.shape)
+
+
+@register
+class IndependentInit(_Init):
+    """Independent.__init__(fn, reals_var, bint_var, diag_var): inputs == fn's inputs without bint_var and diag_var (order
+    kept) followed by reals_var typed Array[dtype of diag_var, (size of bint_var,) + shape of diag_var] -- the batch input
+    becomes the LEADING dimension of the new real input; output == fn's output; fresh == {reals_var}; bound == {bint_var,
+    diag_var} with fn's domains; raises if bint_var / diag_var are not inputs of fn, bint_var is not integer-valued, or
+    reals_var is already another input."""
+
+    file = "funsor/terms.py"
+    qualname = "Independent.__init__"
+    mutants = (("batch size appended last", "shape = (inputs.pop(bint_var).dtype,) + diag_input.shape", "shape = diag_input.shape + (inputs.pop(bint_var).dtype,)"),)
+
+    def structures(self, tier):
+        for names in [("i", "xi"), ("xi", "i"), ("a", "i", "xi"), ("i", "a", "xi", "b"), ("xi", "b", "i")]:
+            for rv in ("x", "a", "xi"):
+                yield "fn=%s,reals_var=%s" % (",".join(names), rv), (names, rv)
+        yield "fn=a,xi (bint_var missing)", (("a", "xi"), "x")
+        yield "fn=i (diag_var missing)", (("i",), "x")
+
+    def build(self, p, st):
+        names, rv = st
+        fn = F("fn", names)
+        doms = {"i": DomI(5, ()), "xi": DomI("real", (2, 3)), "a": DomI(4, ()), "b": DomI("real", ())}
+        fn.inputs = OrderedDict((k, doms[k]) for k in names)
+
+        class ArrayF:
+            def __sym_getitem__(self, idx):
+                return ("Array", idx)
+
+        ns = self.common_ns()
+        ns.update(Independent="IndependentCls", Array=ArrayF(), int=int, str=str)
+        return Ctx(args=(Self(), fn, rv, "i", "xi"), namespace=ns, rec=[], st=st, fn=fn, doms=doms)
+
+    def bad(self, st):
+        names, rv = st
+        return "i" not in names or "xi" not in names or (rv in names and rv not in ("i", "xi"))
+
+    def may_raise(self, ctx, etype):
+        return self.bad(ctx.st)
+
+    def allow_vacuous(self, st):
+        return self.bad(st)
+
+    def ensures(self, ctx, result):
+        names, rv = ctx.st
+        inputs, output, fresh, bound = ctx.rec[0][1]
+        exp = [k for k in names if k not in ("i", "xi")] + [rv]
+        return [("well_typed_when_returns", not self.bad(ctx.st)), ("inputs_without_the_binders_then_the_new_real_input", list(inputs) == exp and inputs[rv] == ("Array", ("real", (5, 2, 3)))),
+                ("output_fresh_bound", output == ctx.fn.output and fresh == frozenset([rv]) and bound == {"i": ctx.doms["i"], "xi": ctx.doms["xi"]})]
